@@ -543,7 +543,7 @@ func ruleRefusalEnds(w *core.World, r *core.Report) {
 	retsErr := true
 	for _, in := range core.Instrs(he) {
 		if ret, ok := in.(*ssa.Return); ok {
-			if len(ret.Results) != 1 || ret.Results[0] != ssa.Value(he.Params[2]) {
+			if len(ret.Results) != 1 || core.RetVal(ret, 0) != ssa.Value(he.Params[2]) {
 				retsErr = false
 			}
 		}
